@@ -25,7 +25,7 @@ CLASSES = os.path.join(ROOT, "build", "classes")
 TLA_JAR = "/opt/veriftools/tla/tla2tools.jar"
 CM_JAR = "/opt/veriftools/tla/CommunityModules-deps.jar"
 HARNESS = os.path.join(ROOT, "harness")
-HARNESS_BIN = os.path.join(HARNESS, "target", "release", "vh")
+HARNESS_BINDIR = os.path.join(HARNESS, "target", "release")
 
 
 class ToolError(Exception):
@@ -192,13 +192,12 @@ def tlc_fail_text(res, n=60):
 # ----------------------------------------------------------------------------------------
 # Harness
 # ----------------------------------------------------------------------------------------
-_built = False
+_built = set()
 
 
-def harness_build(timeout=3000):
-    """cargo build --release of /verif/harness against /repo's current working tree."""
-    global _built
-    if _built:
+def harness_build(bin="vh_merkle", timeout=3000):
+    """cargo build --release of one harness binary against /repo's current working tree."""
+    if bin in _built:
         return
     lock = os.path.join(HARNESS, "Cargo.lock")
     if not os.path.exists(lock):
@@ -206,30 +205,25 @@ def harness_build(timeout=3000):
     e = dict(os.environ)
     e["CARGO_NET_OFFLINE"] = "true"
     t0 = time.time()
-    # serialise concurrent builds (several checks may be started in parallel)
-    import fcntl
-    os.makedirs(WORK, exist_ok=True)
-    with open(os.path.join(WORK, "build.lock"), "w") as lk:
-        fcntl.flock(lk, fcntl.LOCK_EX)
-        r = subprocess.run(["cargo", "build", "--release", "--offline", "--bin", "vh"], cwd=HARNESS, env=e,
-                           capture_output=True, text=True, timeout=timeout)
+    r = subprocess.run(["cargo", "build", "--release", "--offline", "--bin", bin], cwd=HARNESS, env=e,
+                       capture_output=True, text=True, timeout=timeout)
     if r.returncode != 0:
         # a tree that does not build is a tool error, not a violation
         raise ToolError("harness build failed:\n" + r.stderr[-6000:])
-    _built = True
-    log("[build] harness ok in %.1fs" % (time.time() - t0))
+    _built.add(bin)
+    log("[build] %s ok in %.1fs" % (bin, time.time() - t0))
 
 
-def vh(args, timeout=1800, stdin=None, env=None):
-    harness_build()
+def vh(args, timeout=1800, stdin=None, env=None, bin="vh_merkle"):
+    harness_build(bin)
     e = dict(os.environ)
     e["VERIF_SEED"] = str(seed())
     if env:
         e.update({k: str(v) for k, v in env.items()})
-    r = subprocess.run([HARNESS_BIN] + [str(a) for a in args], capture_output=True, text=True,
+    r = subprocess.run([os.path.join(HARNESS_BINDIR, bin)] + [str(a) for a in args], capture_output=True, text=True,
                        timeout=timeout, input=stdin, env=e)
     if r.returncode not in (0,):
-        raise ToolError("harness %s failed rc=%s:\n%s" % (args, r.returncode, (r.stderr or "")[-4000:]))
+        raise ToolError("harness %s %s failed rc=%s:\n%s" % (bin, args, r.returncode, (r.stderr or "")[-4000:]))
     return r.stdout
 
 
